@@ -49,6 +49,7 @@ def run(ctx):
         n += check_sites(ctx, c, dom)
     ctx.info['layout_mutation_sites'] = n
     check_composition(ctx)
+    RF.check_plan_invariants(ctx, 'R6.3')
     check_registry(ctx)
     check_serializer(ctx)
 
